@@ -96,9 +96,33 @@ def run_gen_job(pid, job, tier, seed):
     args = dict(job["args"].get("common", {}))
     args.update(job["args"].get(tier, {}))
     args["sfen-file"] = sfen
-    rec = ["--seed", seed, "--shards", NCPU * (8 if tier == "thorough" else 1), "--out", prefix, "--histories", 0] + flatten(args)
-    stats = run_recorder(job.get("variant", "release"), job["driver"], rec)
-    shards = sorted(glob.glob(prefix + ".*.ndjson"))
+    procs = 8 if (tier == "thorough" and len(recs) >= 4000) else 1
+    nsh = NCPU * (8 if tier == "thorough" else 1)
+    if procs == 1:
+        rec = ["--seed", seed, "--shards", nsh, "--out", prefix, "--histories", 0] + flatten(args)
+        stats = run_recorder(job.get("variant", "release"), job["driver"], rec, timeout=3600)
+        shards = sorted(glob.glob(prefix + ".*.ndjson"))
+    else:
+        # the recorder is single-threaded: the generated cases are dealt out to several recorder processes
+        import concurrent.futures
+        build_harness(job.get("variant", "release"))
+
+        def one(k):
+            part = "%s.part%d" % (sfen, k)
+            open(part, "w").write("\n".join(recs[k::procs]) + "\n")
+            a = dict(args)
+            a["sfen-file"] = part
+            return run_recorder(job.get("variant", "release"), job["driver"],
+                                ["--seed", seed, "--shards", max(1, nsh // procs), "--out", "%s%d" % (prefix, k), "--histories", 0] + flatten(a), timeout=3600)
+        with concurrent.futures.ThreadPoolExecutor(max_workers=procs) as ex:
+            parts = list(ex.map(one, range(procs)))
+        stats = {"events": sum(q.get("events", 0) for q in parts), "histories": sum(q.get("histories", 0) for q in parts), "kinds": {}, "classes": {},
+                 "wall_s": max(q["wall_s"] for q in parts), "cmd": parts[0]["cmd"] + "  (x%d processes, cases dealt round-robin)" % procs}
+        for q in parts:
+            for key in ("kinds", "classes"):
+                for k2, v in q.get(key, {}).items():
+                    stats[key][k2] = stats[key].get(k2, 0) + v
+        shards = sorted(glob.glob(prefix + "[0-9]*.ndjson"))
     res = run_tlc_shards(job["spec"], shards, job["checks"], wd, timeout=job.get("timeout", 3000))
     log("[gen] %s: TLC generated %d cases (%s, %.1fs); %d events recorded; TLC validated %d lines in %.1fs; %d mismatching observations" %
         (job["name"], len(recs), json.dumps(gcfg), out["wall_s"], stats.get("events", 0), res.lines, res.wall, len(res.mismatches)))
